@@ -734,4 +734,4 @@ mod test {
 
 #[cfg(kani)]
 #[path = "/verif/harness/may_queue/spmc.rs"]
-mod verif_kani;
+pub(crate) mod verif_kani;
